@@ -552,8 +552,16 @@ def noprecedence(repo):
     res.instances = 3
     for n in ast.walk(loop):
         if isinstance(n, (ast.Break, ast.Return)):
-            guards = [ast.unparse(p.test) for p in _enclosing(m, n, loop) if isinstance(p, ast.If)]
-            if not any("is_local_name" in g for g in guards):
+            def narrow(t):
+                # the early exit is admissible only for inline-type (local) names: the test is `X.is_local_name`,
+                # possibly narrowed further by `and`; any `or` widens it to other references
+                if isinstance(t, ast.Attribute) and t.attr == "is_local_name":
+                    return True
+                if isinstance(t, ast.BoolOp) and isinstance(t.op, ast.And):
+                    return any(narrow(v) for v in t.values)
+                return False
+            guards = [p.test for p in _enclosing(m, n, loop) if isinstance(p, ast.If)]
+            if not any(narrow(g) for g in guards):
                 res.add(f"{SR}|{f.qualname}|early-exit", "the scope search stops at the first match (precedence) instead of "
                         "examining every visible scope for ambiguity", SR, n.lineno, f.qualname)
     src = m.seg(loop)
